@@ -27,6 +27,11 @@ func checkC09(c *Ctx) error {
 	}
 	defer k.Close(c)
 	symx.InstallKessokuStubs(k.E)
+	symx.InstallSyncStubs(k.E)
+	allow := k.E.AllowPkg
+	k.E.AllowPkg = func(p string) bool {
+		return allow(p) || p == "go/types" || p == "go/constant" || p == "sync/atomic" || p == "go/version" || p == "internal/gover" || p == "internal/types/errors" || p == "math/big"
+	}
 	k.E.MaxSteps = 2_000_000
 	k.E.NewSolver = nil
 	k.E.Solver.Close()
